@@ -450,6 +450,10 @@ SYNC_PAT = re.compile(
     r"|(?P<stopped>\bstopped\s*\(\s*\))"
     r"|(?P<setstop>\b\w+->stop\s*\(\s*\)|\bset_stopped\s*\(\s*\w+\s*\))"
     r"|(?P<rawstop>\b_stopped\b)"
+    r"|(?P<ppush>\bparts\.push_back\s*\()|(?P<pstore>\bparts\s*\[[^\]]*\]\s*=)|(?P<psize>\bparts\.size\s*\(\s*\))"
+    r"|(?P<pother>\bparts\.\w+\s*\()|(?P<pdone>\bparts_done\s*\+\+|\+\+\s*parts_done)|(?P<pdoneread>\bparts_done\b)"
+    r"|(?P<addtask>\bwpool\.add_task\s*\()|(?P<stopall>\bwpool\.stop_all_workers\s*\()|(?P<waitw>\bwpool\.wait_workers\s*\()"
+    r"|(?P<newpart>\bnew\s+StringDictionaryHASHRPDAC\s*\()"
     r"|(?P<run>\btask\s*\(\s*\))"
     r"|(?P<join>\b\w+->join\s*\(\s*\))"
     r"|(?P<kw>\bwhile\b|\bif\b|\bfor\b|\bbreak\b|\bcontinue\b|\breturn\b)"
@@ -495,6 +499,26 @@ def sync_tokens(body):
             out.append("setstop")
         elif g["rawstop"]:
             out.append("_stopped")
+        elif g["ppush"]:
+            out.append("parts.push")
+        elif g["pstore"]:
+            out.append("parts.store")
+        elif g["psize"]:
+            out.append("parts.size")
+        elif g["pother"]:
+            out.append("parts.other")
+        elif g["pdone"]:
+            out.append("done++")
+        elif g["pdoneread"]:
+            out.append("done?")
+        elif g["addtask"]:
+            out.append("pool.add_task")
+        elif g["stopall"]:
+            out.append("pool.stop")
+        elif g["waitw"]:
+            out.append("pool.join")
+        elif g["newpart"]:
+            out.append("build-part")
         elif g["run"]:
             out.append("run")
         elif g["join"]:
@@ -528,11 +552,16 @@ def gen_poolops(repo):
     for label, name, nth in POOL_FUNCS:
         body, _ = func_body(src, name, nth=nth)
         rows.append("  (%s, %s)" % (lean_str(label), lean_list(lean_str(t) for t in sync_tokens(body))))
-    L.append(",\n".join(rows) + "]")
+    bsrc = strip_comments(read(repo, "StringDictionaryHASHRPDACBlocks.cpp"))
+    bbody, _ = func_body(bsrc, "StringDictionaryHASHRPDACBlocks::StringDictionaryHASHRPDACBlocks", nth=2)
+    if "thread_count" not in _ or "WorkerPool" not in bbody:
+        raise ValueError("the parallel constructor of HASHRPDACBlocks was not found")
+    rows.append("  (%s, %s)" % (lean_str("Blocks::ctor"), lean_list(lean_str(t) for t in sync_tokens(bbody) if t not in ("{", "}", "if", "while", "for", "!", "||", "&&", "return"))))
     # every access to the raw members happens inside the accessor that takes the leaf mutex
     src = re.sub(r"LIBCSD_VERIF_POINT\([^;]*\);", "", src)
     raw_q = len(re.findall(r"\bq\.", src))
     raw_s = len(re.findall(r"\b_stopped\b", src))
+    L.append(",\n".join(rows) + "]")
     L += ["", "/-- occurrences of the raw members `q.` and `_stopped` in the whole header (all inside the guarded accessors / the declaration / the constructor) -/",
           "def rawQueueUses : Nat := %d" % raw_q, "def rawStoppedUses : Nat := %d" % raw_s, "", "end CSD.Generated", ""]
     return "\n".join(L)
